@@ -30,6 +30,7 @@ type exprEnv struct {
 	pkg  *types.Package
 	loop *loopInfo
 	depth int
+	qfacts *[]string // well-formedness facts of loads under the innermost quantifier
 }
 
 func (f *frame) baseEnvNoParams(st *State) *exprEnv {
@@ -127,7 +128,12 @@ func (e *exprEnv) B() *Builder { return e.f.t.B }
 // (references stored in the heap are allocated; integers are within their type's range).
 // Only ground terms are instantiated; facts are true in every execution, so they are asserted globally.
 func (e *exprEnv) sideFact(v cval) {
-	if v.typ == nil || strings.Contains(v.term, "?") {
+	if v.typ == nil {
+		return
+	}
+	if strings.Contains(v.term, "?") {
+		// under a quantifier: the well-formedness of the whole heap array version is asserted once (versionAxiom)
+		e.versionAxiom(v)
 		return
 	}
 	f := e.f.t.typeFactsA(e.f.t.lastAlloc, v.term, v.typ)
@@ -533,6 +539,7 @@ func (e *exprEnv) index(n *ast.IndexExpr) (cval, error) {
 		val := fmt.Sprintf("(select (select %s %s) %s)", e.f.t.get(e.st, mapVArr(u), vsA), v.term, k)
 		out := cval{term: ite(present, val, B.zero(u.Elem())), typ: u.Elem()}
 		e.f.t.lastAlloc = e.st.alloc
+		e.f.t.lastVersion, e.f.t.lastDepth = "", 0
 		e.sideFact(cval{term: val, typ: u.Elem()})
 		return out, nil
 	case *types.Basic:
@@ -676,10 +683,14 @@ func (e *exprEnv) call(n *ast.CallExpr) (cval, error) {
 				return cval{}, err
 			}
 			qv := B.fresh("?" + bv.Name)
-			body, err := e.bind(bv.Name, cval{term: q(qv), typ: intT}).expr(n.Args[3])
+			be := e.bind(bv.Name, cval{term: q(qv), typ: intT})
+			var facts []string
+			be.qfacts = &facts
+			body, err := be.expr(n.Args[3])
 			if err != nil {
 				return cval{}, err
 			}
+			body.term = quantBody(facts, body.term, name == "exists")
 			rng := fmt.Sprintf("(and (<= %s %s) (< %s %s))", lo.term, q(qv), q(qv), hi.term)
 			pats := selectPatterns(body.term, q(qv))
 			if name == "forall" {
@@ -714,10 +725,14 @@ func (e *exprEnv) call(n *ast.CallExpr) (cval, error) {
 				bodyX = n.Args[1]
 			}
 			qv := B.fresh("?" + bv.Name)
-			body, err := e.bind(bv.Name, cval{term: q(qv), typ: tp}).expr(bodyX)
+			be := e.bind(bv.Name, cval{term: q(qv), typ: tp})
+			var facts []string
+			be.qfacts = &facts
+			body, err := be.expr(bodyX)
 			if err != nil {
 				return cval{}, err
 			}
+			body.term = quantBody(facts, body.term, strings.HasPrefix(name, "ex"))
 			pats := selectPatterns(body.term, q(qv))
 			if strings.HasPrefix(name, "all") {
 				return cval{term: fmt.Sprintf("(forall ((%s %s)) %s)", q(qv), sortQ, withPatterns(body.term, pats)), typ: boolT}, nil
@@ -1485,4 +1500,57 @@ func withPatterns(body string, pats []string) string {
 	}
 	sb.WriteString(")")
 	return sb.String()
+}
+
+
+// versionAxiom asserts, for the heap array version a value was just loaded from, that every reference stored in it is
+// allocated (bounded by the allocation counter recorded when the version was created). It is a true invariant of
+// Go memory; it is only emitted for loads that occur under a quantifier of a contract.
+func (e *exprEnv) versionAxiom(v cval) {
+	t := e.f.t
+	B := e.B()
+	ver, depth, alloc := t.lastVersion, t.lastDepth, t.lastAlloc
+	if ver == "" || v.typ == nil {
+		return
+	}
+	key := "veraxiom:" + ver
+	if B.declared[key] {
+		return
+	}
+	var sel, vars string
+	switch depth {
+	case 1:
+		sel, vars = fmt.Sprintf("(select %s ?wp)", ver), "((?wp Int))"
+	case 2:
+		sel, vars = fmt.Sprintf("(select (select %s ?wp) ?wi)", ver), "((?wp Int) (?wi Int))"
+	default:
+		return
+	}
+	f := t.typeFactsA(alloc, sel, v.typ)
+	if f == "true" {
+		return
+	}
+	B.declared[key] = true
+	B.assert(fmt.Sprintf("(forall %s (! %s :pattern (%s)))", vars, f, sel))
+}
+
+// quantBody makes the heap well-formedness facts of the loads inside a quantified body antecedents of it.
+// The facts hold in every real execution, so this is sound in either polarity (it can only cost completeness).
+func quantBody(facts []string, body string, existential bool) string {
+	if len(facts) == 0 {
+		return body
+	}
+	seen := map[string]bool{}
+	var fs []string
+	for _, f := range facts {
+		if !seen[f] {
+			seen[f] = true
+			fs = append(fs, f)
+		}
+	}
+	if existential {
+		// exists: conjunction (provable for the witness from the facts recorded where the code loaded the same value)
+		return and(and(fs...), body)
+	}
+	return implies(and(fs...), body)
 }
